@@ -7,8 +7,14 @@ VARIABLES l, cnt
 MInit == l = 1 /\ cnt = [chains |-> 0, calls |-> 0, mono |-> 0, viol |-> 0]
 Bad(c) == {i \in 1..Len(c.rem) : ~Contract(c.rem[i], c.t[i])}
 NonMono(c) == {i \in 1..(Len(c.rem) - 1) : c.rem[i] <= c.rem[i + 1] /\ c.t[i] > c.t[i + 1]}
+\* the same clock state evaluated in other orders (tf: after a call for another ply and colour, td: chain walked downwards):
+\* the allotment is a function of the clock state, so every order gives the same value (and the contract holds for each)
+Orders(c) == {i \in 1..Len(c.rem) : c.tf[i] # c.t[i] \/ c.td[i] # c.t[i] \/ ~Contract(c.rem[i], c.tf[i]) \/ ~Contract(c.rem[i], c.td[i])}
 MNext == /\ l <= Len(T)
-         /\ \E r \in {[bad |-> Bad(T[l]), nm |-> NonMono(T[l])]} :
+         /\ \E r \in {[bad |-> Bad(T[l]), nm |-> NonMono(T[l]), ord |-> Orders(T[l])]} :
+              /\ (r.ord # {} => PrintT("VIOL " \o ToJson([line |-> l, prop |-> "C20", kind |-> "depends_on_call_history",
+                       detail |-> [inc |-> T[l].inc, mtg |-> T[l].mtg, ply |-> T[l].ply, side |-> T[l].side,
+                                   cases |-> {<<T[l].rem[i], T[l].t[i], T[l].tf[i], T[l].td[i]>> : i \in r.ord}]])))
               /\ (r.bad # {} => PrintT("VIOL " \o ToJson([line |-> l, prop |-> "C20", kind |-> "budget",
                        detail |-> [inc |-> T[l].inc, mtg |-> T[l].mtg, ply |-> T[l].ply, side |-> T[l].side,
                                    cases |-> {<<T[l].rem[i], T[l].t[i]>> : i \in r.bad}]])))
@@ -16,7 +22,7 @@ MNext == /\ l <= Len(T)
                        detail |-> [inc |-> T[l].inc, mtg |-> T[l].mtg, ply |-> T[l].ply, side |-> T[l].side,
                                    cases |-> {<<T[l].rem[i], T[l].t[i], T[l].rem[i + 1], T[l].t[i + 1]>> : i \in r.nm}]])))
               /\ cnt' = [chains |-> cnt.chains + 1, calls |-> cnt.calls + Len(T[l].rem), mono |-> cnt.mono + Len(T[l].rem) - 1,
-                         viol |-> cnt.viol + Cardinality(r.bad) + Cardinality(r.nm)]
+                         viol |-> cnt.viol + Cardinality(r.bad) + Cardinality(r.nm) + Cardinality(r.ord)]
          /\ l' = l + 1
 MDone == (l = Len(T) + 1) => PrintT("CNT " \o ToJson(cnt))
 Consumed == TLCGet("stats").diameter = Len(T) + 1
